@@ -482,8 +482,17 @@ class RecordingSigner(Signer):
         return ret
 
 
-def make_signer(spec):
-    """spec: None | dict(kind=..., kl=<uri>, S=, r=)"""
+_SIGNER_POOL = {}
+
+
+def make_signer(spec, reuse=True):
+    """spec: None | dict(kind=..., kl=<uri>, S=, r=).  A signer object is REUSED for every packet with the same spec in this
+    process (applications keep one signer per key): a signer that carries state from one packet into the next shows there."""
+    if reuse and spec is not None and spec.get('kind') not in ('none', 'shrink'):
+        k_ = json.dumps(spec, sort_keys=True)
+        if k_ not in _SIGNER_POOL:
+            _SIGNER_POOL[k_] = make_signer(spec, reuse=False)
+        return _SIGNER_POOL[k_]
     from ndn.security import (DigestSha256Signer, HmacSha256Signer, Sha256WithRsaSigner, Sha256WithEcdsaSigner,
                               Ed25519Signer, NullSigner)
     if spec is None or spec['kind'] == 'none':
